@@ -238,4 +238,33 @@ theorem wordLen_shr_nonneg (a : Int) (k : Nat) (ha : 0 ≤ a) :
       omega
     rw [hz]; unfold Go.wordLen; simp; omega
 
+
+/-- the truncated quotient has at most `|a| − |b| + 1` words -/
+theorem wordLen_tdiv_sub (a b : Int) (hb : b ≠ 0) :
+    Go.wordLen (Int.tdiv a b) ≤ max 0 (Go.wordLen a - Go.wordLen b + 1) := by
+  have hA := lt_pow_wordLen a
+  have hB := pow_le_natAbs b hb
+  have h0a := wordLen_nonneg a
+  have h0b := wordLen_nonneg b
+  have hne : Go.wordLen b ≠ 0 := fun h => hb (wordLen_eq_zero b h)
+  have hm := max_min_facts 0 (Go.wordLen a - Go.wordLen b + 1)
+  by_cases hk : (Go.wordLen b).toNat - 1 ≤ (Go.wordLen a).toNat
+  · have hmi : (((Go.wordLen a).toNat - ((Go.wordLen b).toNat - 1) : Nat) : Int) = max 0 (Go.wordLen a - Go.wordLen b + 1) := by omega
+    rw [← hmi, wordLen_le_iff, Int.natAbs_tdiv]
+    have e : 64 * (Go.wordLen a).toNat = 64 * ((Go.wordLen a).toNat - ((Go.wordLen b).toNat - 1)) + 64 * ((Go.wordLen b).toNat - 1) := by omega
+    rw [e, Nat.pow_add] at hA
+    have h1 : a.natAbs / 2 ^ (64 * ((Go.wordLen b).toNat - 1)) < 2 ^ (64 * ((Go.wordLen a).toNat - ((Go.wordLen b).toNat - 1))) :=
+      Nat.div_lt_of_lt_mul (by rw [Nat.mul_comm]; exact hA)
+    have h2 : a.natAbs / b.natAbs ≤ a.natAbs / 2 ^ (64 * ((Go.wordLen b).toNat - 1)) :=
+      Nat.div_le_div_left hB (Nat.two_pow_pos _)
+    exact Nat.lt_of_le_of_lt h2 h1
+  · have hz : Int.tdiv a b = 0 := by
+      have : (Int.tdiv a b).natAbs = 0 := by
+        rw [Int.natAbs_tdiv]
+        apply Nat.div_eq_of_lt
+        have h1 : 2 ^ (64 * (Go.wordLen a).toNat) ≤ 2 ^ (64 * ((Go.wordLen b).toNat - 1)) := pow64_mono (by omega)
+        omega
+      omega
+    rw [hz]; unfold Go.wordLen; simp; omega
+
 end Verif.Proofs.BigMeter
